@@ -4,6 +4,7 @@ out-of-space errors with the raw free count, and fill/delete cycles with the ini
 import vlib, sessions
 from vlib import hexs
 from props import sess_common as sc
+from props import csess_corr
 
 PROP_FILES = ["Props/C05.v"]
 FILL_TAG = "fill0_".encode().hex()        # names are hex-encoded in script lines
@@ -229,3 +230,6 @@ def run(rep, tier, seed):
                        "reported free count vs free entries counted by the independent decoder in the raw table, FS-info words after unmount, "
                        "NotEnoughSpace vs raw free count, capacity after deleting everything; distinct = distinct op sequences without finding")
     rep.sample({"config": scripts[1][2], "ops": [sc.short(l, 80) for l in scripts[1][6:18]]})
+    # image level (Model/VolRemove.v, C05_vol_remove_reclaims_all / C05_vol_cycles_keep_capacity): create ; calls ; flush / drop ;
+    # remove - whole device against the extracted model after every call, Spec/Abs + Spec/Wf on the device after every remove
+    csess_corr.stream(rep, tier, vlib.Rng(seed * 7919 + 5), "C05", n=12 if tier == "quick" else 240)
